@@ -1,5 +1,6 @@
 import MlodaVerif.Lemmas.SchedOrder
 import MlodaVerif.Lemmas.PlanOK
+import MlodaVerif.Lemmas.Exec
 /-! # C01 - every feature is computed once, and only after all of its inputs
 
 Theorems about the orchestrator model `Sched` for *every* plan with disjoint, non-empty step outputs (decided on every
@@ -82,6 +83,23 @@ theorem C01.plan_checks_sound (p : Plan) (parents : List (Nat × List Nat))
     (h1 : disjointOutsB p = true) (h2 : nonemptyOutsB p = true) (h3 : parentsCoveredB p parents = true) :
     DisjointOuts p ∧ NonemptyOuts p ∧ ParentsCovered p (parentsOf parents) :=
   ⟨disjointOutsB_sound h1, nonemptyOutsB_sound h2, parentsCoveredB_sound h3⟩
+
+/-- "their columns are present in the data it receives" - PARTIAL: proved for steps sharing one compute-framework object
+under a serialising executor (SYNC, MULTIPROCESSING: one worker with a FIFO queue per object).  While a step is open its
+snapshot holds, for every direct parent of every feature it computes, that parent's (reference) value.  Under THREADING
+the statement is false: `C06.thread_lost_update_witness`. -/
+theorem C01.columns_present_partial {V : Type} (cfg : Exec.Cfg V) (ref : Nat → V) (p : Plan) (hd : DisjointOuts p)
+    (hpc : ParentsCovered p cfg.parents) (href : Exec.IsRef cfg ref) (evs : List Ev) (i : Nat) (st : Step)
+    (hst : p[i]? = some st) (hopen : Exec.Open (Exec.erun cfg true p Exec.einit evs).s i) :
+    ∀ c ∈ st.outs, ∀ a ∈ cfg.parents c,
+      (Exec.lookup (Exec.snapOf (Exec.erun cfg true p Exec.einit evs) i) a).isSome = true := by
+  intro c hc a ha
+  have hi := Exec.einv_run hd hpc href (V := V) evs
+  rw [hi.open_snap i hopen]
+  have hstarted := hi.sinv.begun_sub i hopen.1
+  obtain ⟨j, sj, hj1, hj2, hj3⟩ := hi.rinv i hstarted st hst a (hpc i st hst c hc a ha)
+  obtain ⟨w, hw⟩ := (hi.store_has a).mpr ⟨j, sj, hj3, hj1, hj2⟩
+  simp [hw]
 
 /-- non-vacuity: a diamond plan (0 → 1, 0 → 2, {1,2} → 3) with disjoint non-empty outs; one schedule in which the two
 middle steps overlap runs every step exactly once and returns -/
